@@ -317,6 +317,52 @@ def run(ctx):
         else:
             r.bad("clear|fields", "LineBuffer::clear does not reset %s" % sorted(need - got), fn=h, construct="clear")
 
+    with ctx.rule("C02.STOPNM", "the fast inverted scanner cannot step over the stopping line (buffer-boundary dependent otherwise; shared with C03.STOPNM)",
+                  floor=1, kind="GUARD") as r:
+        from . import c03
+        c03.stopnm_invert_rule(ctx, r)
+    with ctx.rule("C02.BYTECOUNT", "every strategy reports the cursor position in its current buffer as part of the final byte count",
+                  floor=3, kind="FLOW/PARITY") as r:
+        GL = "grep_searcher::searcher::glue::"
+        POS = CORE + "::pos"
+        for strat in ("SliceByLine", "MultiLine"):
+            f = facts.fn(GL + strat + "::run")
+            fin = f.calls_to(CORE + "::finish")
+            bc = facts.fn(GL + strat + "::byte_count")
+            ebc = ExprBuilder(bc)
+            rets = [ebc.rvalue(st["rv"]) for bb, j, st in bc.stmts() if st["k"] == "assign" and st["place"]["l"] == 0 and not st["place"]["p"]]
+            eb = ExprBuilder(f)
+            if fin and mentions_call(eb.operand(fin[0].args[1]), GL + strat + "::byte_count") and rets and \
+                    any(mentions_call(e, POS) for e in rets):
+                r.ok("count|" + strat, "finish(byte_count()) with byte_count() = pos (or the binary offset before it)", fn=f)
+            else:
+                r.bad("count|" + strat, "%s::run no longer reports its cursor as the byte count" % strat, fn=f, construct="byte_count")
+        f = facts.fn(GL + "ReadByLine::run")
+        eb = ExprBuilder(f)
+        fin = f.calls_to(CORE + "::finish")
+        mb = f.calls_to(CORE + "::match_by_line")
+        if not fin or not mb:
+            r.bad("count|ReadByLine", "anchor-missing: ReadByLine::run shape", fn=f)
+        else:
+            e = eb.operand(fin[0].args[1])
+            if not mentions_call(e, "grep_searcher::line_buffer::LineBufferReader::absolute_byte_offset"):
+                r.bad("count|ReadByLine", "ReadByLine::run reports `%s` as the byte count" % show(e)[:60], fn=f, construct="byte_count")
+            elif mentions_call(e, POS):
+                r.ok("count|ReadByLine", "finish(absolute_byte_offset() + pos)", fn=f)
+            else:
+                # on the path where match_by_line said stop, the searched part of the buffer is consumed before finish
+                s_ = seed_after_call(f, mb[0], V("Ok", I(0)))
+                cons = {c.bb for c in f.calls() if c.path.endswith("LineBufferReader::consume") and
+                        mentions_call(eb.operand(c.args[1]), POS)}
+                reached_fin = fin[0].bb in s_.exec_blocks
+                if reached_fin and cons and not C.all_paths_pass(
+                        f, [mb[0].target], cons, [fin[0].bb],
+                        removed_edges={(a, b) for a in s_.exec_blocks for b in f.succ(a) if (a, b) not in s_.exec_edges}):
+                    r.ok("count|ReadByLine", "stop requested ⇒ consume(pos) before finish(absolute_byte_offset())", fn=f)
+                else:
+                    r.bad("count|ReadByLine", "after a stop request ReadByLine::run reports only the bytes consumed before the current "
+                          "buffer: the byte count of an early-stopped search depends on how the reader fragmented its reads and "
+                          "differs from the slice strategies (which report their cursor)", fn=f, loc=fin[0].loc, construct="byte_count")
     with ctx.rule("C02.NOPROGRESS", "the forced quit of ReadByLine::fill is guarded by consumed == 0 ∧ no growth", floor=1,
                   kind="GUARD") as r:
         g = facts.fn(GLUE + "::ReadByLine::fill")
